@@ -33,15 +33,16 @@ MAX_PATHS = 60000
 
 
 class Path(object):
-    __slots__ = ("ev", "end", "env")
+    __slots__ = ("ev", "end", "env", "facts")
 
-    def __init__(self, ev=None, end="fall", env=None):
+    def __init__(self, ev=None, end="fall", env=None, facts=None):
         self.ev = list(ev) if ev else []
         self.end = end
         self.env = dict(env) if env else {}
+        self.facts = dict(facts) if facts else {}
 
     def plus(self, *events):
-        return Path(self.ev + list(events), self.end, self.env)
+        return Path(self.ev + list(events), self.end, self.env, self.facts)
 
     # convenience views -----------------------------------------------------
     def stmts(self):
@@ -187,8 +188,90 @@ def _feasible(env, test, outcome):
     return True
 
 
-def _is_true_const(test):
-    return isinstance(test, ast.Constant) and bool(test.value) is True
+def _pure_atom(expr):
+    """Expression without calls/yields whose value can only change through a store
+    or a call that receives one of its names."""
+    for n in ast.walk(expr):
+        if isinstance(n, (ast.Call, ast.Yield, ast.YieldFrom, ast.Await, ast.NamedExpr, ast.Lambda,
+                          ast.ListComp, ast.SetComp, ast.DictComp, ast.GeneratorExp)):
+            return False
+    return True
+
+
+def _fact_names(expr):
+    """Names a fact depends on; attribute chains rooted in self count as
+    'self.<attr>' so that unrelated uses of self do not invalidate them."""
+    out = set()
+    skip = set()
+    for n in ast.walk(expr):
+        if isinstance(n, ast.Attribute) and isinstance(n.value, ast.Name) and n.value.id == "self":
+            out.add("self." + n.attr)
+            skip.add(id(n.value))
+    for n in ast.walk(expr):
+        if isinstance(n, ast.Name) and id(n) not in skip:
+            out.add(n.id)
+    return out
+
+
+def _facts_consistent(facts, test, outcome):
+    """Record the pure atoms asserted by this branch; False if one of them was
+    asserted with the opposite polarity earlier on the path (and nothing that
+    could change it happened in between)."""
+    new = {}
+    for expr, pol in A.literals(test, outcome):
+        e, p2 = A.strip_not(expr)
+        pol = pol if p2 else (not pol)
+        if isinstance(e, ast.BoolOp) or not _pure_atom(e):
+            continue
+        key = A.src(e)
+        old = facts.get(key)
+        if old is not None and old[0] != pol:
+            return None
+        new[key] = (pol, _fact_names(e))
+    return new
+
+
+_PURE_CALLS = {"hasattr", "isinstance", "callable", "len", "getattr", "str", "repr", "bool", "int", "float",
+               "type", "id", "print", "any", "all", "min", "max", "sum", "sorted", "tuple", "issubclass", "abs",
+               "format", "range", "enumerate", "zip"}
+
+
+def _invalidate_facts(facts, node):
+    """Forget facts that the execution of *node* may change: names it stores,
+    roots of subscript/attribute stores, and every name that occurs inside a call
+    (as receiver or argument).  `self.x` is only touched by stores to self.x, by
+    calls that receive self.x (or self itself), and by calls of self's methods."""
+    if not facts:
+        return
+    touched = set()
+    all_self = False
+    for n in ast.walk(node):
+        if isinstance(n, ast.Name) and isinstance(n.ctx, (ast.Store, ast.Del)):
+            touched.add(n.id)
+        elif isinstance(n, (ast.Subscript, ast.Attribute)) and isinstance(n.ctx, (ast.Store, ast.Del)):
+            touched |= _fact_names(n)
+            r = A.root_name(n)
+            if r and r != "self":
+                touched.add(r)
+        elif isinstance(n, ast.Call):
+            if isinstance(n.func, ast.Name) and n.func.id in _PURE_CALLS:
+                continue
+            if isinstance(n.func, ast.Attribute) and isinstance(n.func.value, ast.Name) and n.func.value.id == "self":
+                all_self = True   # a method of self may rebind any field
+            parts = list(n.args) + [k.value for k in n.keywords]
+            if isinstance(n.func, ast.Attribute):
+                parts.append(n.func.value)
+            for a in parts:
+                touched |= _fact_names(a)
+                if isinstance(a, ast.Name) and a.id == "self":
+                    all_self = True
+        elif isinstance(n, (ast.Yield, ast.YieldFrom)):
+            # the consumer may do anything to yielded objects
+            if n.value is not None:
+                touched |= _fact_names(n.value)
+    for k in [k for k, (pol, names) in facts.items()
+              if names & touched or (all_self and any(x.startswith("self.") or x == "self" for x in names))]:
+        del facts[k]
 
 
 class Enumerator(object):
@@ -212,7 +295,15 @@ class Enumerator(object):
     def branch(self, p, test, outcome):
         if self.prune and not _feasible(p.env, test, outcome):
             return None
-        return p.plus(("cond", test, outcome))
+        q = p.plus(("cond", test, outcome))
+        if self.prune:
+            # calls inside the test itself may change things
+            _invalidate_facts(q.facts, test)
+            new = _facts_consistent(q.facts, test, outcome)
+            if new is None:
+                return None
+            q.facts.update(new)
+        return q
 
     def step(self, p, st):
         if isinstance(st, ast.If):
@@ -230,6 +321,10 @@ class Enumerator(object):
             return self.try_(p, st)
         if isinstance(st, (ast.With, ast.AsyncWith)):
             q = p.plus(("with", st))
+            for it in st.items:
+                _invalidate_facts(q.facts, it.context_expr)
+                if it.optional_vars is not None:
+                    _invalidate_facts(q.facts, it.optional_vars)
             for it in st.items:
                 if it.optional_vars is not None:
                     for nm in A.target_names(it.optional_vars):
@@ -257,6 +352,7 @@ class Enumerator(object):
             return [q]
         q = p.plus(("stmt", st))
         _update_env(q.env, st)
+        _invalidate_facts(q.facts, st)
         return [q]
 
     def loop(self, p, st):
@@ -280,12 +376,17 @@ class Enumerator(object):
             one = p.plus(("iter", st))
             for nm in A.target_names(st.target):
                 one.env.pop(nm, None)
+            _invalidate_facts(one.facts, st.target)
+            _invalidate_facts(one.facts, st.iter)
         if one is None:
             return out
         for q in self.seq([one], st.body):
             if q.end in ("fall", "continue"):
                 qq = q.plus(("backedge", st))
                 qq.end = "fall"
+                # after further iterations anything assigned in the loop may differ
+                for bst in st.body:
+                    _invalidate_facts(qq.facts, bst)
                 if forever:
                     qq.end = "loop"
                     out.append(qq)
@@ -324,6 +425,7 @@ class Enumerator(object):
                         if q.end != "fall":
                             continue
                         hp = q.plus(("partial", bst), ("exc", h))
+                        _invalidate_facts(hp.facts, bst)
                         for n in A.walk_local(bst):
                             if isinstance(n, ast.Name) and isinstance(n.ctx, ast.Store):
                                 hp.env.pop(n.id, None)
@@ -339,7 +441,7 @@ class Enumerator(object):
             fin = []
             for q in out:
                 e = q.end
-                q2 = Path(q.ev, "fall", q.env)
+                q2 = Path(q.ev, "fall", q.env, q.facts)
                 for x in self.seq([q2], st.finalbody):
                     if x.end == "fall":
                         x.end = e
